@@ -128,7 +128,10 @@ func main() {
 	// extended product: what stands before the name (qualifier / aliased expression / table expression) and what follows it
 	if *extended {
 		exprs := []string{"1", "'a'", "a", "f(x)", "a + b", "[1, 2]", "[1, NULL]::Array(Nullable(UInt8))", "(1, 2)", "x::UInt8", "CAST(x AS UInt8)", "(SELECT 1)",
-			"CASE WHEN a THEN 1 END", "-1", "NULL", "count(*)", "a.b", "NOT a", "[true]::Array(Bool)", "(1, NULL)::Tuple(UInt8, Nullable(UInt8))"}
+			"CASE WHEN a THEN 1 END", "-1", "NULL", "count(*)", "a.b", "NOT a", "[true]::Array(Bool)", "(1, NULL)::Tuple(UInt8, Nullable(UInt8))",
+			"a BETWEEN 1 AND 2", "a NOT BETWEEN 1 AND 2", "a LIKE 'x'", "a IS NULL", "a IS NOT NULL", "a ? b : c", "INTERVAL 1 DAY", "EXTRACT(DAY FROM d)", "a[1]", "t.1",
+			"a IN (1, 2)", "a IN (SELECT 1)", "EXISTS (SELECT 1)", "trim(BOTH 'x' FROM s)", "substring(s FROM 1 FOR 2)", "position('a' IN s)", "CAST(x, 'UInt8')", "a || b", "a AND b",
+			"-a", "(a, b)", "[a, b]", "(a)", "{p:UInt8}", "sum(x) OVER ()", "count(DISTINCT a)", "sumIf(a, b)", "quantile(0.5)(x)", "DATE '2020-01-01'", "a = ANY (SELECT 1)"}
 		colFollow := []string{"", ", 2", " FROM t", " FROM t WHERE 1", " UNION ALL SELECT 2", " ORDER BY 1", " FORMAT Null", " SETTINGS a = 1", " LIMIT 1", " FROM t GROUP BY 1 WITH TOTALS"}
 		tables := []string{"t", "db.t", "(SELECT 1)", "numbers(10)"}
 		tabFollow := []string{"", " WHERE 1", " WITH TOTALS", " GROUP BY 1", " ORDER BY 1", " LIMIT 1", " JOIN u ON 1", ", u", " SAMPLE 0.1", " PREWHERE 1", " ARRAY JOIN a",
